@@ -199,7 +199,7 @@ def run(ctx, chk):
     chk.exhaustive = True
 
 
-def check_half_classes(chk, prog, eff):
+def check_half_classes(chk, prog, eff, prefix="C15"):
     import termeval
     f = prog.fn("_cbor_decode_half")
     where = "%s:%d" % (f.file, f.line)
@@ -300,15 +300,15 @@ def check_half_classes(chk, prog, eff):
         if not ok and len(bad) < 6:
             bad.append("pattern %04x (sign %d, exponent %d, mantissa %d) must be %s%s; the decoder takes the '%s'%s path"
                        % (H, s_, e_, m_, "-" if s_ and want != "nan" else "", want, kind, " negated" if neg else ""))
-    chk.ob("C15.half-classes", "all 65536 half patterns reach the action of their IEEE-754 class", not bad, where, fn=f.name, key="half-classes",
+    chk.ob(prefix + ".half-classes", "all 65536 half patterns reach the action of their IEEE-754 class", not bad, where, fn=f.name, key="half-classes",
            detail="; ".join(bad))
     for k, v in sorted(counts.items()):
-        chk.ob("C15.half-classes", "class %s: %d patterns examined" % (k, v), True, where, fn=f.name, key="half-class:" + k, nontrivial=False)
+        chk.ob(prefix + ".half-classes", "class %s: %d patterns examined" % (k, v), True, where, fn=f.name, key="half-class:" + k, nontrivial=False)
     chk.extra["half_patterns_classified"] = sum(counts.values())
-    chk.rule("C15.half-value", "for every finite half pattern the operands of the decoder's scaling call (integer terms, evaluated per "
+    chk.rule(prefix + ".half-value", "for every finite half pattern the operands of the decoder's scaling call (integer terms, evaluated per "
                                "pattern) denote exactly m x 2^-24 (exponent 0) or (1024 + m) x 2^(e-25); ldexp by a power of two and the "
                                "double -> float conversion of a half-representable value are exact (ISO C / IEEE-754, trusted)")
-    chk.ob("C15.half-value", "scaling operands of all %d finite half patterns denote the IEEE-754 value" % nval, not badval and nval >= 63488, where,
+    chk.ob(prefix + ".half-value", "scaling operands of all %d finite half patterns denote the IEEE-754 value" % nval, not badval and nval >= 63488, where,
            fn=f.name, key="half-value", detail="; ".join(badval))
     chk.extra["half_patterns_value_checked"] = nval
 
